@@ -191,7 +191,7 @@ class Explorer:
                 except PathTimeout:
                     self.complete = False
                     self.stats.incomplete += 1
-                    if self._path_solver_s > 0.5 * self.path_timeout_s:
+                    if self._path_solver_s > 0.5 * self.path_timeout_s or getattr(self, "timeout_is_undecided", False):
                         # the budget went into z3 (a query that ignored its own timeout), not into the code under
                         # test: the path is undecided, the exploration goes on
                         self.stats.undecided += 1
